@@ -301,3 +301,17 @@ package cbor
 //@   callassert Slice#1: @defaultkeys e.MapKeySort == nil ==> u(*binding(arg1, "keys")) == u(marshaledKeys)
 //@   callassert Encode#2: @keybytes u(arg0) == u(e) && bytes(unwrap(arg1)) == bytes(marshaledKeys[i])
 //@   callassert Encode#3: @out u(arg0) == u(e)
+
+// A struct field is decoded into a new zero value of its type, which is then assigned
+// to the field: decoding into a reused destination leaves nothing of the previous
+// object behind (e.g. the parsed-key cache of a protocol.PublicKey; C04, C11).
+//@ func cbor.Decoder.decodeStructField
+//@   params d rv idx
+//@   local f = call:reflect.Value.FieldByIndex#2
+//@   local newVal = call:reflect.New#2
+//@   props C11 C04(functional) C12(sweep)
+//@   sweep bounds
+//@   callsites Decoder.Decode 1
+//@   callsites Value.Set 2
+//@   callassert Decoder.Decode#1: @fresh freshzero(newVal) == True() && u(arg1) == IfaceOf(u(newVal))
+//@   callassert Value.Set#2: @assign u(arg0) == u(f)
